@@ -5,8 +5,9 @@ the labelled forest with per-node payloads (graph index, name, data-point set, c
 (with the outlier key `-1`) and `_last_node_added_to`.  One definition per Python method; an
 operation returns `none` where the Python raises (KeyError, failed `assert`, rustworkx error).
 
-What is structural here and therefore *modelled, not verified*: graph shape (each clone has one
-parent by construction), rustworkx index allocation (the model allocates `1 + max index`; the
+What is structural here: graph shape (each clone has one parent by construction; the explicit digraph model
+`Model/Graph.lean` and the `forest_*` / `graph_*` theorems of `Props/C07.lean` cover shape where it is not structural);
+*modelled, not verified*: rustworkx index allocation (the model allocates `1 + max index`; the
 correspondence compares stores up to a bijection of indices and names), DFS visiting order.
 The virtual root always has graph index 0 and the name "root"; its entries in the two maps are
 implicit. -/
